@@ -341,4 +341,74 @@ func runC08(p *P, r *R) {
 	} else {
 		r.fail("R08.5", "anchor (*linkedBuffer).releasePreviousReadAndReserve", "", "function not found")
 	}
+	c08ReaderBufferRecycle(p, r)
+}
+
+// c08ReaderBufferRecycle (R08.6): recycling a stream's whole receive buffer returns the reader's pinned slices too, so
+// it may happen only where no reader can still hold a zero-copy result: in the close routine (the user closed the
+// stream), or — on the receive path — on the edge where the stream's state is known to be closed. A peer-closed
+// (half-closed) stream still has a reader that may be holding results of ReadBytes / Peek.
+func c08ReaderBufferRecycle(p *P, r *R) {
+	closeFn := p.fn("(*Stream).close")
+	if closeFn == nil {
+		r.fail("R08.6", "anchor (*Stream).close", "", "not found")
+		return
+	}
+	closeFam := p.family(closeFn)
+	closedV, _ := p.pkgConstInt("streamClosed")
+	isState := func(v ssa.Value) bool {
+		c, ok := v.(*ssa.Call)
+		if !ok {
+			return false
+		}
+		if p.calleeName(&c.Call) == "(*Stream).getStreamState" {
+			return true
+		}
+		a := p.atomicOp(c)
+		return a != nil && a.Op == "Load" && a.Word == "Stream.state"
+	}
+	isClosed := func(v ssa.Value) bool { c, ok := constInt(v); return ok && c == closedV }
+	knownClosedAt := func(in ssa.Instruction) bool {
+		for _, fct := range factsAt(in.Block()) {
+			if relOn(fct.Cond, fct.Truth, isState, isClosed) == "==" {
+				return true
+			}
+		}
+		return false
+	}
+	isRecvRecycle := func(in ssa.Instruction) bool {
+		c, ok := in.(*ssa.Call)
+		return ok && p.calleeName(&c.Call) == "(*linkedBuffer).recycle" && isLoadOf(c.Call.Args[0], "Stream.recvBuf")
+	}
+	n := 0
+	for _, f := range p.fnList {
+		for _, ci := range findInstrs(f, M{ID: "recycle recvBuf", F: isRecvRecycle}) {
+			n++
+			fn := p.fname(f)
+			ok, why := false, ""
+			switch {
+			case inFns(f, closeFam):
+				ok, why = true, "close routine: the user closed the stream"
+			case knownClosedAt(ci):
+				ok, why = true, "on the state == streamClosed edge"
+			default:
+				// a small helper: judged at its call sites
+				sites := 0
+				all := true
+				for _, g := range p.fnList {
+					for _, si := range findInstrs(g, p.mCall(p.fname(f))) {
+						sites++
+						if !inFns(g, closeFam) && !knownClosedAt(si) {
+							all = false
+						}
+					}
+				}
+				if sites > 0 && all {
+					ok, why = true, "helper called only from the close routine / on the closed edge"
+				}
+			}
+			r.ob("R08.6", fn+": the reader's whole buffer (pinned slices included) is recycled only for a closed stream", p.ipos(ci), ok, true, "%s", why)
+		}
+	}
+	r.count("R08.6", "recycles of a stream's receive buffer", n, 2)
 }
